@@ -23,7 +23,7 @@ def stretched(n, h0, rng):
 class World:
     def __init__(self, emg3d, rng, case, mapping, shape=(8, 4, 4),
                  nsrc=2, nfreq=2, relative=False, noise='scalar',
-                 gridding='same', uniform=False):
+                 gridding='same', uniform=False, edge_rec=False):
         self.emg3d, self.case, self.mapping = emg3d, case, mapping
         hs = [np.ones(n)*100.0 if uniform else stretched(n, 80.0, rng)
               for n in shape]
@@ -66,9 +66,15 @@ class World:
                         (*inside((0.3, 0.65, 0.4)), 45., 10.)),
                     'Rx-3': emg3d.RxElectricPoint(
                         (*inside((0.65, 0.6, 0.35)), 90., 20.))}
+        if edge_rec:
+            # a receiver in the outermost cell of the grid: its synthetic
+            # response is NaN (boundary), its observation (set below) is not
+            fx = 0.4*float(g.h[0][0])/float(g.h[0].sum())
+            recs['Rx-4'] = emg3d.RxElectricPoint(
+                (*inside((fx, 0.5, 0.5)), 10., 0.))
         freqs = {f'f-{i+1}': f for i, f in enumerate([1.0, 3.0][:nfreq])}
         kw = {}
-        nd = (nsrc, 3, nfreq)
+        nd = (nsrc, len(recs), nfreq)
         if noise == 'scalar':
             kw = {'noise_floor': 1e-15, 'relative_error': 0.05}
         elif noise == 'array':
@@ -93,6 +99,8 @@ class World:
                                   **self.opts)
             s0.compute(observed=True, add_noise=False)
         obs = s0.survey.data.observed.data.copy()
+        if edge_rec:
+            obs[:, 3, :] = obs[:, 0, :]*(0.3+0.2j)
         obs[0, 1, 0] = np.nan + 1j*np.nan
         if nsrc > 1:
             obs[1, 2, :] = np.nan + 1j*np.nan
